@@ -215,6 +215,14 @@ class C14:
                         ru = S.run(["clunblind %s %s %s" % (suite, zl(bs), zl(f["C"]))], expect="ok", label="unblind")[0]
                         sig = [ru.z(0), ru.z(1), ru.z(2)]
                         S.run([Q.vline(x, msgs, sig)], expect=true_, label="verify(unblind(blind_sign))")
+                        # the revealed positions listed in DESCENDING order (values in the same order): the same signed vector
+                        rvx = complement(n, U)
+                        if len(rvx) >= 2:
+                            rd_ = list(reversed(rvx))
+                            rbd = S.run([blindsign_line(x, f, ridx=rd_, revealed=[msgs[i] for i in rd_])], expect="ok", label="blind_sign(revealed positions descending)")[0]
+                            if rbd.status == "OK":
+                                rud = S.run(["clunblind %s %s %s" % (suite, zl([rbd.z(0), rbd.z(1), rbd.z(2)]), zl(f["C"]))], expect="ok", label="unblind")[0]
+                                S.run([Q.vline(x, msgs, [rud.z(0), rud.z(1), rud.z(2)])], expect=true_, label="verify(unblind(blind_sign)):revealed-descending")
                         # re-issuing after a revealed attribute changed
                         rev_idx = complement(n, U)
                         for upd0 in ([False, True] if len(rev_idx) >= 2 else [False]) if rev_idx else []:
@@ -346,6 +354,7 @@ class C15:
                 sig = Q.sign(S, x, msgs)
                 if sig is None: continue
                 if suite == "toy": repeated_hidden_index_proofs(S, x, sig, msgs)
+                if suite == "toy" and n == 3: equal_value_proofs(S, x)
                 subsets = list(Q.all_subsets(n)) if suite == "toy" else [[0], [0, 1]]
                 for U in subsets:
                     r = S.run([spokgen_line(x, sig, msgs, U)], expect="ok", label="proof_gen")[0]
@@ -726,6 +735,8 @@ class C17:
                 sig = Q.sign(S, x, msgs)
                 if suite == "toy" and sig is not None: stats["recomputations"] += repeated_hidden_index_proofs(S, x, sig, msgs)
                 if suite == "toy" and n == 2: stats["recomputations"] += length_distinguisher(S, x, tier)
+                if suite == "toy" and n == 2: stats["recomputations"] += many_attribute_proofs(S, tier)
+                if suite == "toy" and n == 3: stats["recomputations"] += equal_value_proofs(S, x)
                 subsets = list(Q.all_subsets(n, nonempty=True)) if (suite == "toy" and tier != "quick") else [[0], list(range(n))]
                 for U in subsets:
                   for trusted in (False, True):
@@ -773,7 +784,7 @@ class C18:
         P = _p(); Q = _q(); rng = S.rng
         stats = {"keys": 0, "bases_checked": 0, "random_calls": 0}
         # toy2: a suite whose ln is not 2 * SECPARAM (the prime length must come from SECPARAM)
-        plan = [("toy", 6 if tier == "quick" else 60), ("toy2", 2 if tier == "quick" else 12)] + ([("cl1024", 1)] if tier != "quick" else [])
+        plan = [("toy", 6 if tier == "quick" else 60), ("toy2", 2 if tier == "quick" else 12), ("toy3", 1 if tier == "quick" else 4)] + ([("cl1024", 1)] if tier != "quick" else [])
         for suite, nkeys in plan:
             sp = Q.SUITE_P[suite]["SECPARAM"]
             for k in range(nkeys):
@@ -814,6 +825,15 @@ class C18:
                     if math.gcd(v, N) != 1: bad.append(nm + " not coprime to N")
                     if Q.jacobi(v, p) != 1 or Q.jacobi(v, q) != 1: bad.append(nm + " is not a quadratic residue")
                 if bad: P.fail(S, "key-structure", "; ".join(bad[:6]), [str(N)])
+                if k == 0:
+                    # byte / JSON codec of signatures under this key, components with LEADING ZERO octets included (v below 2^(ln - 8))
+                    ln_ = Q.SUITE_P[suite]["ln"]; le_ = Q.SUITE_P[suite]["le"]; ls_ = Q.SUITE_P[suite]["ls"]
+                    e_ = (1 << (le_ - 1)) + 12345; s0_ = rng.getrandbits(ls_ - 1) | (1 << (ls_ - 2))
+                    for v_ in (1, 255, 2 ** (ln_ - 16), 2 ** (ln_ - 8) - 1, rng.getrandbits(ln_ - 9), rng.randrange(N)):
+                        for s_ in (s0_, s0_ >> 20):
+                            rz = S.run(["clsigcodec %s %s" % (suite, zl([e_, s_, v_]))], expect="ok", label="sig-codec(leading zero octets)")[0]
+                            if rz.status == "OK" and ([rz.z(1), rz.z(2), rz.z(3)] != [e_, s_, v_] or rz.toks[4] != "1"):
+                                P.fail(S, "sig-codec", "signature with leading zero octets changed by its byte / JSON codec", [zl([e_, s_, v_])])
                 # corner draws of random_qr forced through the replay queue: 0, 1, N-1, the non-trivial square roots of 1, multiples of
                 # p and q; whatever the first draw, the value returned must be a square in (1, N) coprime to N
                 if k < 3:
@@ -871,6 +891,22 @@ def repeated_hidden_index_proofs(S, x, sig, msgs):
         S.run([spokver_line(x, doc, msgs, U)], label="proof_verify(repeated hidden index)")
         secrets = [("m_%d" % i, msgs[i]) for i in sorted(set(U))] + [("e", sig[0]), ("s", sig[1]), ("v", sig[2])]
         q_, r_ = masking_attack(S, doc, [("c(spok)", clj.get(sp, ("challenge",)))], secrets, "spok[repeated hidden index %s]" % U); cnt += q_
+    return cnt
+
+def equal_value_proofs(S, x):
+    """two positions holding the SAME attribute value, one hidden and one revealed: hidden is decided by position, the response stays masked"""
+    Q = _q(); rng = S.rng; cnt = 0
+    a_, b_ = Q.rmsg(rng), Q.rmsg(rng)
+    for msgs, U in (([a_, a_, b_], [0]), ([a_, a_, b_], [1]), ([a_, b_, a_], [2]), ([a_, a_, a_], [1])):
+        if len(x.bases) < len(msgs): return cnt
+        sig = Q.sign(S, x, msgs)
+        if sig is None: continue
+        r = S.run([spokgen_line(x, sig, msgs, U)], expect="ok", label="proof_gen(equal hidden and revealed values)")[0]
+        if r.status != "OK": continue
+        doc = r.json(0); sp = doc["CL03"]["spok"]
+        S.run([spokver_line(x, doc, msgs, U)], expect=true_, label="proof_verify(equal hidden and revealed values)")
+        secrets = [("m_%d" % i, msgs[i]) for i in U] + [("e", sig[0]), ("s", sig[1]), ("v", sig[2])]
+        q_, r_ = masking_attack(S, doc, [("c(spok)", clj.get(sp, ("challenge",)))], secrets, "spok[equal values %s]" % U); cnt += q_
     return cnt
 
 def many_attribute_proofs(S, tier):
@@ -966,6 +1002,7 @@ class C19:
                 msgs = [Q.rmsg(rng) for _ in range(n)]
                 sig = Q.sign(S, x, msgs)
                 if suite == "toy" and sig is not None: stats["quotients"] += repeated_hidden_index_proofs(S, x, sig, msgs)
+                if suite == "toy" and n == 3: stats["quotients"] += equal_value_proofs(S, x)
                 if sig is not None:
                     # NOTHING hidden: the responses about e, s, v and the commitment randomness are masked all the same
                     r0 = S.run([spokgen_line(x, sig, msgs, [])], expect="ok", label="triv:proof_gen(nothing hidden)")[0]
